@@ -43,6 +43,12 @@ STATEMENTS = [
     'PRINT FROM year = 2020 AND flag = "!"', 'PRINT FROM type = "note"',
     'select account, number where number > 100 order by number desc limit 3',
     'SELECT number, cost_number, price WHERE cost_number IS NOT NULL',
+    'SELECT account, sum(position) AS s FROM CLEAR GROUP BY account ORDER BY account',
+    'SELECT account, sum(position) AS s FROM OPEN ON 2020-01-01 CLEAR GROUP BY account ORDER BY account',
+    'SELECT account, sum(position) AS s FROM year >= 2019 CLEAR GROUP BY account ORDER BY account',
+    'SELECT account, sum(position) AS s FROM CLOSE GROUP BY account ORDER BY account',
+    'SELECT account, sum(position) AS s FROM OPEN ON 2019-06-01 CLOSE CLEAR GROUP BY account ORDER BY account',
+    'JOURNAL', 'BALANCES WHERE account ~ "Assets"', 'SELECT DISTINCT * FROM #commodities', 'SELECT * FROM #events', 'SELECT date, comment FROM #notes',
 ]
 
 
